@@ -26,16 +26,18 @@ SPEC = dict(
          "big-*: per shard one cache of 4096 .. 200000 entries (capacities around powers of two and past 65536) filled past its capacity "
          "(size, eviction count and discarded key checked per insert) and one cache that serves millions of lookups without a clear "
          "(hits / misses / evictions compared with the counted history at every power of two of lookups). "
+         "real-pause-histories: per shard one cache with a real lifetime of 0.1-1 s that serves hits, a miss and an eviction, is left alone for 1-2.5 s of real time, and is then asked again "
+         "(misses; statistics still those since the last clear; a history whose first part took more than half the lifetime is inconclusive). SearchCache keys carry limits 0, 1, 2, 5, 10 while the stored lists hold 1-3 results. "
          "sweep-left-expired counts sweeps after which a definitely expired entry was still present (recorded, not a violation: the "
          "statement does not demand a complete sweep).",
     floors=T({"evaluations": 15000, "distinct_nontrivial": 8000, "ops": 2000000, "evictions": 100000, "expiry-miss": 50000,
               "latitude-window-lookups": 5000, "sweeps": 50000, "clear": 10000, "default-capacity": 100, "searchcache-ops": 100000,
               "manager-capacity": 16, "manager-ttl": 16, "histories-lru-long": 15, "histories-lru-large": 15, "puts-of-nil-and-zero-values": 100000, "pools-with-hash-colliding-keys": 3000,
-              "big-capacity-histories": 16, "big-evictions-checked": 20000, "big-lookup-histories": 16, "big-lookups": 30000000},
+              "big-capacity-histories": 16, "big-evictions-checked": 20000, "big-lookup-histories": 16, "big-lookups": 30000000, "real-pause-histories": 8},
              {"evaluations": 400000, "distinct_nontrivial": 200000, "ops": 50000000, "evictions": 2500000, "expiry-miss": 1250000,
               "latitude-window-lookups": 125000, "sweeps": 1250000, "clear": 250000, "default-capacity": 2500, "searchcache-ops": 2500000,
               "manager-capacity": 16, "manager-ttl": 16, "histories-lru-long": 800, "histories-lru-large": 800, "puts-of-nil-and-zero-values": 5000000, "pools-with-hash-colliding-keys": 150000,
-              "big-capacity-histories": 16, "big-evictions-checked": 20000, "big-lookup-histories": 16, "big-lookups": 500000000}),
+              "big-capacity-histories": 16, "big-evictions-checked": 20000, "big-lookup-histories": 16, "big-lookups": 500000000, "real-pause-histories": 8}),
     assumptions=[
         "virtual time: every advance is a multiple of 10 s and every lifetime is 5 s off that grid (1h0m5s, 1m5s; the manager check probes "
         "DefaultCacheTTL -5 s / +5 s), so the real micro-seconds elapsed during a history cannot change an expiry decision; a history "
